@@ -452,18 +452,28 @@ def project_queries(tr, cfg, shift=0):
     for i in ids:
         row_n, row_h = [], []
         for t in range(-1, cfg.T + 1):
-            p, s = tr.get_track_neighbors(i, t)
-            row_n.append([int(p) if p is not None else 0, int(s) if s is not None else 0])
-            row_h.append(1 if tr.has_track_id_at_time(i, t) else 0)
+            # a query that raises (possible only on a corrupted state) is recorded as an impossible answer
+            try:
+                p, s = tr.get_track_neighbors(i, t)
+                row_n.append([int(p) if p is not None else 0, int(s) if s is not None else 0])
+            except Exception:  # noqa: BLE001
+                row_n.append([-9, -9])
+            try:
+                row_h.append(1 if tr.has_track_id_at_time(i, t) else 0)
+            except Exception:  # noqa: BLE001
+                row_h.append(-9)
         nbr.append(row_n); has.append(row_h)
     pix = []
     if tr.segmentation is not None:
         shape = tr.segmentation.shape
         for n in range(1, cfg.N + 1):
             if n in tr.graph:
-                p = tr.get_pixels(n)
-                flat = np.ravel_multi_index(p, shape) + 1
-                pix.append(sorted(int(x) for x in flat))
+                try:
+                    p = tr.get_pixels(n)
+                    flat = np.ravel_multi_index(p, shape) + 1
+                    pix.append(sorted(int(x) for x in flat))
+                except Exception:  # noqa: BLE001
+                    pix.append([-9])
             else:
                 pix.append([])
     return {"nbr": nbr, "has": has, "pix": pix,
